@@ -181,7 +181,12 @@ func PreferredGoType(dt datatype.DataType) (reflect.Type, error) {
 		if err != nil {
 			return nil, err
 		}
-		return reflect.MapOf(ensureNillable(keyType), ensureNillable(valueType)), nil
+		keyType = ensureNillable(keyType)
+		if !keyType.Comparable() {
+			// reflect.MapOf panics for key types that cannot be Go map keys (blob, inet, collections, tuples, UDTs)
+			return nil, errMapKeyTypeNotComparable(dt, keyType)
+		}
+		return reflect.MapOf(keyType, ensureNillable(valueType)), nil
 	}
 	return nil, errCannotFindGoType(dt)
 }
